@@ -5,6 +5,32 @@ HERE = os.path.dirname(os.path.abspath(__file__))
 ALL = ["C%02d" % i for i in range(1, 19)]
 
 CHECKS = {
+ "C02": dict(
+   technique="TLA+ contract XtObs; recorded executions (slice vs reader under many read schedules) validated by TLC against Trace_XtObs",
+   text="Every recorded translate call (generated streams and mutated inputs, 4 source selections + detection, 4 targets, slice and reader under single-byte, random, document-aligned and mid-token read schedules) is validated by TLC against the XtObs contract: runs that share bytes and formats must end with the same verdict, byte-identical output on success and prefix-comparable output on failure.",
+   note="Trusts TLC, the harness reader/writer and its byte-level comparison (cmp field). Inputs are generated/mutated, not exhaustive; three recorded deviations are excused for their pinned input classes (KNOWN_FINDINGS.txt).",
+   design_ref="DESIGN.md 4.3, 6 (C02)"),
+ "C03": dict(
+   technique="TLA+ contract XtObs; recorded call histories validated by TLC against Trace_XtObs",
+   text="Histories of 1-4 translate calls in mixed formats on one Translator and multi-document streams are recorded at the harness-owned writer; TLC accepts a trace only if every accepted byte extends the concatenation of the solo translations, frames are whole and in order, and success implies every document was written.",
+   note="Frames are xt's own solo translations (the property's oracle). Generated histories, not exhaustive.",
+   design_ref="DESIGN.md 4.3, 6 (C03)"),
+ "C05": dict(
+   technique="TLA+ contract XtObs (lag rule at every read request); recorded read/write interleavings validated by TLC",
+   text="Streams of 10-120 documents are fed through packetising readers; at every read request of the real run TLC checks delivered - written <= 2 for JSON, MessagePack and YAML sources, explicit and detected.",
+   note="Memory growth is not yet asserted in this check (bounded-lag half of the statement only).",
+   design_ref="DESIGN.md 4.3, 6 (C05)"),
+ "C08": dict(
+   technique="TLA+ contract XtObs (TOML rules); recorded TOML-target histories validated by TLC",
+   text="Histories on a TOML-target Translator (every root kind; null, oversized integer, non-string key, binary planted at random tree paths; 1-3 calls; 4 sources; slice/reader) are validated by TLC: at most one frame ever, nothing accepted for a refused or second document, success only for the first clean document.",
+   note="Read-back equality of the written document is covered by the value oracle of C01; here the frame is xt's solo translation.",
+   design_ref="DESIGN.md 4.3, 6 (C08)"),
+ "C12": dict(
+   technique="TLA+ contract XtObs (fault rules); fault-injected executions validated by TLC",
+   category="model_checking",
+   text="For generated streams the reader is made to fail from every input offset and the writer from every output offset (plus short-write patterns); TLC accepts the recorded run only if a hit fault ends in an error carrying the reader's text, accepted bytes stay a prefix of the fault-free output and frames stay whole and ordered.",
+   note="Fault offsets are exhaustive per generated stream; streams themselves are sampled.",
+   design_ref="DESIGN.md 4.3, 6 (C12)"),
  "C09": dict(
    technique="TLA+ spec XtInput model-checked with TLC; every path over the TLC-exported transition relation replayed on the real input handle",
    text="TLC checks the capture/replay invariants of the rewindable input handle on the complete reachable state graph (all stream lengths up to MaxN, all fault offsets, all short-read patterns); every path of bounded length over the exported transition relation is stepped on the real Handle with result and projection compared after each step.",
